@@ -361,6 +361,78 @@ fn gen_output(s: &mut Src<'_>) -> (Out, Vec<chia_protocol::CoinSpend>) {
     )
 }
 
+/// a CLVM program that evaluates to the value `node`, computing some atoms at run time
+fn computed_program(t: &mut Tree, node: Tid, s: &mut Src<'_>, budget: &mut usize, depth: usize) -> Tid {
+    let q = t.atom(&[1]);
+    let quote = |t: &mut Tree, n: Tid| -> Tid { t.pair(q, n) };
+    match t.get(node).clone() {
+        vcore::gentree::TNode::Atom(b) => {
+            if !s.chance(150) {
+                return quote(t, node);
+            }
+            if b.is_empty() {
+                match s.below(3) {
+                    0 => {
+                        // (substr "hello!" k k): an empty atom that is not the nil node
+                        let op = t.atom(&[12]);
+                        let src = t.atom(b"hello!");
+                        let qs = quote(t, src);
+                        let k = 1 + s.below(5) as u8;
+                        let ka = t.atom(&[k]);
+                        let qk = quote(t, ka);
+                        t.list(&[op, qs, qk, qk])
+                    }
+                    1 => {
+                        // (concat () ())
+                        let op = t.atom(&[14]);
+                        let n = t.nil();
+                        let qn = quote(t, n);
+                        t.list(&[op, qn, qn])
+                    }
+                    _ => {
+                        // (- 5 5)
+                        let op = t.atom(&[17]);
+                        let five = t.atom(&[5]);
+                        let q5 = quote(t, five);
+                        t.list(&[op, q5, q5])
+                    }
+                }
+            } else if b.len() >= 2 {
+                // (concat head tail)
+                let op = t.atom(&[14]);
+                let mid = 1 + s.below(b.len() - 1);
+                let h = t.atom(&b[..mid]);
+                let tl = t.atom(&b[mid..]);
+                let qh = quote(t, h);
+                let qt = quote(t, tl);
+                t.list(&[op, qh, qt])
+            } else if b[0] >= 2 && b[0] < 0x80 {
+                // (+ 1 (n-1))
+                let op = t.atom(&[16]);
+                let one = t.atom(&[1]);
+                let rest = t.atom(&[b[0] - 1]);
+                let q1 = quote(t, one);
+                let qr = quote(t, rest);
+                t.list(&[op, q1, qr])
+            } else {
+                quote(t, node)
+            }
+        }
+        vcore::gentree::TNode::Pair(l, r) => {
+            if *budget == 0 || depth > 40 {
+                return quote(t, node);
+            }
+            *budget -= 1;
+            // expand the right spine eagerly (that is where terminators live),
+            // the left side less often
+            let lp = if s.chance(110) { computed_program(t, l, s, budget, depth + 1) } else { quote(t, l) };
+            let rp = computed_program(t, r, s, budget, depth + 1);
+            let c = t.atom(&[4]);
+            t.list(&[c, lp, rp])
+        }
+    }
+}
+
 fn serialize(a: &Allocator, n: clvmr::NodePtr, backrefs: bool) -> Vec<u8> {
     if backrefs {
         node_to_bytes_backrefs(a, n).expect("serialize")
@@ -372,7 +444,7 @@ fn serialize(a: &Allocator, n: clvmr::NodePtr, backrefs: bool) -> Vec<u8> {
 pub fn case_structured(bytes: &[u8], ctx: &mut Ctx) -> CaseResult {
     let mut s = Src::new(bytes);
     let flags = flag_choice(&mut s);
-    let form = s.below(6);
+    let form = s.below(7);
     let backrefs = s.bool();
     let (mut out, coin_spends) = gen_output(&mut s);
     // ---- the generator program
@@ -433,6 +505,18 @@ pub fn case_structured(bytes: &[u8], ctx: &mut Ctx) -> CaseResult {
                 let mut a2 = Allocator::new();
                 let n = gentree::build(&mut a2, t, prog, BuildMode::PLAIN);
                 serialize(&a2, n, backrefs)
+            }
+            // procedural: the output is rebuilt with `c`, and some atoms — list
+            // terminators in particular — are *computed at run time* (substr /
+            // concat / +), so they reach the consensus code as heap-allocated
+            // atoms rather than as the canonical nil / small-integer nodes
+            4 => {
+                form_name = "procedural-computed-atoms";
+                let mut budget = 48usize;
+                let prog = computed_program(t, out.output, &mut s, &mut budget, 0);
+                let mut a = Allocator::new();
+                let n = gentree::build(&mut a, t, prog, BuildMode::PLAIN);
+                serialize(&a, n, backrefs)
             }
             // quoted output
             _ => {
@@ -579,6 +663,9 @@ pub fn property() -> Property {
                     "form:solution_generator_backrefs",
                     "form:procedural-cons",
                     "form:procedural-deserialize-block-ref",
+                    "form:procedural-computed-atoms",
+                    "both-accept:procedural-computed-atoms",
+                    "both-accept:procedural-deserialize-block-ref",
                     "limited:legacy-exhausted-resources",
                     "limited:both-accept",
                 ],
